@@ -85,6 +85,10 @@ where
             self.low = val;
         }
 
+        // only the most recent output is ever read again
+        if self.q_out.len() > 1 {
+            self.q_out.pop_front();
+        }
         if self.high == self.low {
             self.q_out.push_back(T::zero());
             return;
